@@ -248,7 +248,7 @@ async def _dump(context, inputs):
         async with conn.execute("SELECT token.id AS id, token.port AS port, port.name AS pname FROM token "
                                 "JOIN port ON token.port = port.id ORDER BY token.id") as cur:
             rows = [dict(r) for r in await cur.fetchall()]
-        async with conn.execute("SELECT dependee, depender FROM provenance ORDER BY rowid") as cur:
+        async with conn.execute("SELECT dependee, depender FROM provenance") as cur:
             prov = [dict(r) for r in await cur.fetchall()]
     lc = DefaultDatabaseLoadingContext(database=db)
     out = []
